@@ -241,6 +241,7 @@ HookFires ==
 Tick ==
   /\ now < Horizon
   /\ status = "running" /\ phase = "run" /\ NonTerminating(prog.body, W)
+  /\ InBody \/ \E i \in DOMAIN stack : stack[i].k = "loop"   \* entering the wrappers takes no time
   /\ hooked[Cur] => checked
   /\ now' = now + 1 /\ checked' = FALSE
   /\ UNCHANGED <<prog, status, phase, stack, err, hooked, limit, budget, swallowed, rec, spin, py>>
@@ -307,6 +308,9 @@ TimeoutNotSwallowed == status = "returned" => ~swallowed
 BoundedOverrun == status = "running" => now <= D + 1
 \* after the invocation, whatever its result, the context is as before it
 CtxRestored == status \in Done => py = PyZero /\ \A t \in Threads : ~hooked[t]
+\* (reachability probe, expected to FAIL in Demo_LuaTimeout_loop_escape: with the host pcall a
+\* catch-and-continue loop over deeprec can still be left when the hook fires in the loop statement)
+NeverAborted == status # "aborted"
 \* with no deviation every program of the grammar gets what the property demands
 IdealMeetsDemand == Pred(prog.body, W, {}) = {Demand(prog.body, W)}
 =============================================================================
